@@ -1,5 +1,6 @@
 """Run context and property registry (worker side)."""
 import importlib
+import os
 import random
 from typing import Any, Dict, List, Optional
 
@@ -75,6 +76,28 @@ class Ctx:
                 "states": sorted(self.states), "schedules": sorted(self.schedules)}
 
 
+CWD_FAULT_RATE = 0.08
+_unwritable = []
+
+
+def unwritable_dir() -> Optional[str]:
+    """A directory of this machine in which even this process cannot create a file (probed once per interpreter)."""
+    if not _unwritable:
+        found = None
+        for d in ("/sys", "/proc", "/sys/kernel", "/proc/sys"):
+            try:
+                if not os.path.isdir(d):
+                    continue
+                with open(os.path.join(d, "corsim-probe"), "w"):
+                    pass
+                os.remove(os.path.join(d, "corsim-probe"))
+            except OSError:
+                found = d
+                break
+        _unwritable.append(found)
+    return _unwritable[0]
+
+
 def execute(pid: str, case: dict, cell: dict) -> dict:
     """Deterministic function of (case, cell, code under test)."""
     from . import sched
@@ -82,10 +105,21 @@ def execute(pid: str, case: dict, cell: dict) -> dict:
     ctx = Ctx(pid, cell)
     sched.set_current(None)
     picks0 = sched.total_picks
+    back = None
+    if case.get("_cwd") == "unwritable":
+        d = unwritable_dir()
+        if d is None:
+            ctx.probe("cwd_unwritable_unavailable")
+        else:
+            back = os.getcwd()
+            os.chdir(d)
+            ctx.fault("cwd_unwritable")
     try:
         mod.run_case(case, ctx)
         ctx.steps += sched.total_picks - picks0
     finally:
+        if back is not None:
+            os.chdir(back)
         sched.set_current(None)
         del sched.draw_observers[:]
     return ctx.result(case)
@@ -96,4 +130,9 @@ def generate(pid: str, seed: int, tier: str, run_index: int, cell: dict) -> dict
     st = Streams(run_seed_of(seed, tier, pid, run_index))
     case = mod.gen_case(st, tier, cell["env"])
     case["_run"] = {"seed": seed, "tier": tier, "index": run_index}
+    # environment fault, drawn from a stream of its own so that it shifts no other choice: the process' working
+    # directory is one in which nothing can be created (read-only deployment, removed directory); nothing the
+    # properties promise is conditional on a writable working directory
+    if random.Random(derive(st.run_seed, "cwd")).random() < CWD_FAULT_RATE:
+        case["_cwd"] = "unwritable"
     return case
